@@ -3,7 +3,8 @@ open Lean Aeic Aeic.Wire
 
 /-- area prefix ↦ handler; ops are named `<area>.<name>` -/
 def handlers : List (String × (String → Json → Except String Json)) := [
-  ("store", Aeic.Store.handle)
+  ("store", Aeic.Store.handle),
+  ("merge", Aeic.Merge.handle)
 ]
 
 def dispatch (op : String) (j : Json) : Except String Json :=
